@@ -693,7 +693,7 @@ pub fn run_check(prop: Arc<dyn Prop>, tier: Tier) -> RunOutcome {
                     cases: per as u32,
                     failure_persistence: None,
                     rng_seed: RngSeed::Fixed(0), // replaced below via new_with_rng
-                    max_shrink_iters: 4000,
+                    max_shrink_iters: if prop.isolated() { 120 } else { 1500 },
                     max_global_rejects: 1_000_000,
                     ..Config::default()
                 };
